@@ -21,6 +21,8 @@ pub struct ScopeCfg {
     pub p_global: u32,
     pub allow_globaldefs: bool,
     pub allow_unmatched_end: bool,
+    /// Never assign \tracingmacros (the repository's hook prints to the real stdout).
+    pub no_tracingmacros: bool,
 }
 
 pub const FAMILIES: [&str; 16] = [
@@ -78,6 +80,7 @@ pub fn scope_cfg(rng: &mut Rng) -> ScopeCfg {
         p_global: [10, 30, 50, 70][rng.below(4)],
         allow_globaldefs: rng.chance(1, 2),
         allow_unmatched_end: rng.chance(1, 3),
+        no_tracingmacros: false,
     }
 }
 
@@ -149,6 +152,15 @@ impl<'a> ScopeGen<'a> {
     }
 
     fn param(&mut self) -> Param {
+        let p = self.param_inner();
+        if self.cfg.no_tracingmacros && p == Param::TracingMacros {
+            Param::Day
+        } else {
+            p
+        }
+    }
+
+    fn param_inner(&mut self) -> Param {
         let ps: &[Param] = if self.cfg.allow_globaldefs {
             &[
                 Param::EndLineChar,
